@@ -132,6 +132,7 @@ func execC02(t *testing.T, c *sim.Case) *sim.Result {
 		hist := map[string][]verEntry{}
 		nkeys := int(c.CfgInt("keys", 3))
 		ncf := int(c.CfgInt("cfs", 1))
+		w.TrackTies = nkeys
 		for i, op := range c.Ops {
 			w.step = i
 			sim.Beat()
